@@ -126,6 +126,12 @@ func execFmtBinary(id string, s *ev.Shard, b *sandbox.Box, c FmtCase) *rp.Fail {
 	f1 := string(data1)
 	tree2, err2 := parser.New(f1).Parse()
 	switch id {
+	case "C06":
+		// the CLI must have parsed the very structure the parser finds in the file's text: what it
+		// writes back is the rendering of its tree, so it must equal the rendering of ours
+		if want := tree1.String(); f1 != want {
+			return &rp.Fail{Sig: "cli-parsed-different-structure", Size: size, Msg: fmt.Sprintf("spokfile %q: the parser's tree for this text renders as %q, but the tree `spok --fmt` built from the file renders as %q", clip(c.Src), clip(want), clip(f1))}
+		}
 	case "C07":
 		if err2 != nil {
 			return &rp.Fail{Sig: "fmt-broke-spokfile", Size: size, Msg: fmt.Sprintf("spokfile %q parses; after `spok --fmt` the file is %q which does not: %v", c.Src, f1, err2)}
@@ -165,4 +171,11 @@ func execFmtBinary(id string, s *ev.Shard, b *sandbox.Box, c FmtCase) *rp.Fail {
 		}
 	}
 	return nil
+}
+
+func clip(x string) string {
+	if len(x) > 600 {
+		return x[:300] + fmt.Sprintf(" …(%d bytes)… ", len(x)-600) + x[len(x)-300:]
+	}
+	return x
 }
